@@ -13,6 +13,14 @@ Theorem C06_node : forall courses parts esize shrinkf rs nd a s,
   Housed (map (eff_size courses esize a) (seq 0 (nc courses))) rs.
 Proof. exact full_feasible_housed. Qed.
 
+(* the gate itself (the model of check_room_feasibility; the correspondence CorrGate compares it with the code at realistic sizes and checks
+   this very implication on the implementation's verdicts, bit 32): when it reports no conflict for an assignment in a subproblem, the
+   effective sizes of that assignment can be housed in the given rooms *)
+Theorem C06_gate : forall courses esize shrinkf rs nd a,
+  room_sets courses esize shrinkf (prep_rooms courses rs) nd a = Val None ->
+  Housed (map (eff_size courses esize a) (seq 0 (nc courses))) rs.
+Proof. exact room_sets_none_housed. Qed.
+
 (* every best solution the search ever holds (all worker counts, all interleavings) can be housed *)
 Theorem C06 : forall courses parts esize shrinkf rs smin smax k st a,
   SReach courses parts esize shrinkf (Some rs) smin smax k st ->
@@ -56,9 +64,10 @@ Proof.
   intros H. apply housedb_spec in H. vm_compute in H. discriminate.
 Qed.
 
-Check C06_allocation. Check C06_housed_iff. Check C06_node. Check C06. Check C06_desc_is_sort. Check C06_checker_sound.
+Check C06_gate. Check C06_allocation. Check C06_housed_iff. Check C06_node. Check C06. Check C06_desc_is_sort. Check C06_checker_sound.
 Print Assumptions C06_allocation.
 Print Assumptions C06_housed_iff.
+Print Assumptions C06_gate.
 Print Assumptions C06_node.
 Print Assumptions C06.
 Print Assumptions C06_desc_is_sort.
